@@ -221,5 +221,6 @@ def run(ctx):
     big = not ctx.quick
     ctx.search("rejection", rej.rejection_cases(max_n=300 if big else 50, logprobs=True), body_factory(ctx),
                quick=1500, thorough=40000)
+    ctx.search("large", rej.large_cases(logprobs=True), body_factory(ctx), quick=6, thorough=80)
     ctx.search("iterative", iter_cases(max_n=300 if big else 80), iter_body_factory(ctx), quick=800, thorough=20000)
     ctx.search("real_kernel", real_cases(), real_body_factory(ctx), quick=400, thorough=10000)
